@@ -6,14 +6,15 @@ with the raw (unresolved) operands, ``mn.asm(instr)``, ``mn.dis(candidate, mode)
 Oracle (from the statement only): asm proposes >= 1 candidate; each candidate decodes in the same mode to an
 instruction with the same name, mode and operand list, whose length is the candidate's length.
 """
+import os
 import re
 
-from vlib.runner import Check, ShardResult, Failure
+from vlib.runner import Check, ShardResult, Failure, derive_seed
 from vlib import archlab
 
 # parts per architecture (cost balance), quick / thorough
-PARTS_Q = {"x86_32": 6, "x86_64": 8, "x86_16": 5, "arml": 2, "armb": 1, "armtl": 4, "armtb": 1, "aarch64l": 3,
-           "aarch64b": 1, "mips32l": 1, "mips32b": 2, "ppc32b": 2, "msp430": 3, "mepb": 2, "mepl": 1, "sh4": 1}
+PARTS_Q = {"x86_32": 4, "x86_64": 6, "x86_16": 2, "arml": 2, "armb": 1, "armtl": 3, "armtb": 1, "aarch64l": 2,
+           "aarch64b": 1, "mips32l": 1, "mips32b": 1, "ppc32b": 1, "msp430": 2, "mepb": 2, "mepl": 1, "sh4": 1}
 PARTS_T = {"x86_32": 40, "x86_64": 56, "x86_16": 36, "arml": 10, "armb": 10, "armtl": 8, "armtb": 8, "aarch64l": 12,
            "aarch64b": 12, "mips32l": 6, "mips32b": 6, "ppc32b": 6, "msp430": 6, "mepb": 4, "mepl": 4, "sh4": 2}
 # quick tier: the second endianness of a table set takes every STRIDE-th enumerated sample
@@ -207,7 +208,13 @@ class RoundTripCheck(Check):
         else:
             n = self.nrand_q if part == 0 else 0      # one Hypothesis start-up per architecture
         if n > 0:
-            hyp.survey(archlab.random_strategy(arch), n, seed, lambda d: self.one(res, arch, "random", d, state))
+            # the random stratum depends on (VERIF_SEED, property, architecture, part) only, not on the shard layout
+            try:
+                base = int(os.environ.get("VERIF_SEED", "1"))
+            except ValueError:
+                base = 1
+            rseed = derive_seed(base, self.pid, name, part)
+            hyp.survey(archlab.random_strategy(arch), n, rseed, lambda d: self.one(res, arch, "random", d, state))
         self.end(res, arch, tier)
         res.exhaustive["deterministic strata (curated + opcode enumeration) completed"] = True
         return res
